@@ -845,13 +845,32 @@ func ruleF7(c *Ctx) *RuleResult {
 		byID := c.Func("", "findSegmentWithID")
 		byInv := c.Func("", "findSegmentWithInvPosition")
 		cur := c.Field("", sd, "curSegmentID")
-		allInstrs(fq, func(in ssa.Instruction) {
+		// the selection logic may sit in fillSegmentQueue or in helper methods of the same type that it calls
+		fqSet := []*ssa.Function{fq}
+		for i := 0; i < len(fqSet) && i < 8; i++ {
+			allInstrs(fqSet[i], func(in ssa.Instruction) {
+				if call, ok := in.(*ssa.Call); ok {
+					g := call.Call.StaticCallee()
+					if g != nil && g.Blocks != nil && InRootPkg(g) && g.Signature.Recv() != nil && namedOf(g.Signature.Recv().Type()) == namedOf(fq.Signature.Recv().Type()) && !strings.HasPrefix(g.Name(), "download") {
+						fqSet = appendUnique(fqSet, g)
+					}
+				}
+			})
+		}
+		allIn := func(f func(ssa.Instruction)) {
+			for _, g := range fqSet {
+				allInstrs(g, f)
+			}
+		}
+		nID, nInv := 0, 0
+		allIn(func(in ssa.Instruction) {
 			call, ok := in.(*ssa.Call)
 			if !ok {
 				return
 			}
 			switch call.Call.StaticCallee() {
 			case byID:
+				nID++
 				id := call.Call.Args[2]
 				okID := false
 				if add, ok := id.(*ssa.BinOp); ok && add.Op == token.ADD {
@@ -869,6 +888,7 @@ func ruleF7(c *Ctx) *RuleResult {
 					r.fail("fillSegmentQueue|next-id", c.Pos(call.Pos()), FuncName(fq), "the next segment looked up is current id + 1", "id argument is "+id.String())
 				}
 			case byInv:
+				nInv++
 				k, isK := constInt(call.Call.Args[1])
 				want, _ := c.rootConstInt("clientLiveInitialDistance")
 				if isK && k == want {
@@ -878,6 +898,12 @@ func ruleF7(c *Ctx) *RuleResult {
 				}
 			}
 		})
+		if nID == 0 {
+			r.undecided("F7: no call of findSegmentWithID in fillSegmentQueue or its helpers: the next-id obligation lost its anchor")
+		}
+		if nInv == 0 {
+			r.undecided("F7: no call of findSegmentWithInvPosition in fillSegmentQueue or its helpers: the live-start obligation lost its anchor")
+		}
 		// push(nil) only after Endlist && last segment
 		push := c.Method("", "clientSegmentQueue", "push")
 		endl := c.Field("pkg/playlist", "Media", "Endlist")
@@ -958,7 +984,7 @@ func ruleF7(c *Ctx) *RuleResult {
 		// too-late check
 		maxD, _ := c.rootConstInt("clientLiveMaxDistanceFromEnd")
 		foundMax := false
-		allInstrs(fq, func(in ssa.Instruction) {
+		allIn(func(in ssa.Instruction) {
 			if bo, ok := in.(*ssa.BinOp); ok && bo.Op == token.GTR {
 				if k, ok := constInt(bo.Y); ok && k == maxD {
 					foundMax = true
